@@ -112,21 +112,8 @@ def run(chk: Check, repo: Repo) -> None:
     chk.ob("generic-decode", gen.site(), len(rets) == 1 and ast.unparse(rets[0].value) == f"self.dpt_class.from_knx({gen.node.args.args[1].arg})", "RemoteValue.from_knx returns self.dpt_class.from_knx(payload)", key="generic-decode")
 
     # (b)
-    subs = repo.subclasses(base, strict=True)
-    chk.floor("remote_value_subclasses", len(subs), 25)
-    inst_writers = {w.func.cls.name: w for w in attr_writes(repo, "dpt_class", include_mutators=False) if w.func.cls is not None and w.receiver == "self"}
-    n_over = 0
-    for k in subs:
-        fk = repo.lookup_method(k, "from_knx")
-        if fk is None or fk.cls == base:
-            continue
-        n_over += 1
-        hit = repo.class_attr_expr(k, "dpt_class")
-        cls_val = ast.unparse(hit[0]) if hit else "None"
-        inst = [c.name for c in repo.mro(k) if c.name in inst_writers]
-        ok = cls_val == "None" and not inst
-        chk.ob("override-implies-no-dpt-class", fk.site(), ok, f"{k.name}.from_knx is overridden by {fk.cls.name}; class dpt_class = {cls_val}; per-instance dpt_class writers in MRO: {inst}", key=f"override|{k.name}")
-    chk.count("from_knx_overrides", n_over)
+    from .common_rules import override_implies_no_dpt_class
+    override_implies_no_dpt_class(chk, repo)
 
     # (c)
     sd = repo.func("xknx.core.group_address_dpt", "GroupAddressDPT.set_decoded_data")
